@@ -99,10 +99,29 @@ def special_sl2(rng):
     return [[F(x) for x in r] for r in M]
 
 
+WORD_GENS = [[[1, 2], [0, 1]], [[1, 0], [2, 1]], [[1, -2], [0, 1]], [[1, 0], [-2, 1]], [[2, 0], [0, F(1, 2)]], [[F(1, 2), 0], [0, 2]],
+             [[0, -1], [1, 0]], [[2, 1], [1, 1]], [[1, -1], [-1, 2]]]
+
+
+def word_sl2(rng, maxlen=12, bound=10 ** 5):
+    """a product of up to `maxlen` random generators (integer / dyadic entries, determinant exactly one, exact in floating point);
+    entries up to ~1e5 — the matrices that long words of a discrete group produce"""
+    M = [[F(1), F(0)], [F(0), F(1)]]
+    for _ in range(rng.randint(4, maxlen)):
+        g = rng.choice(WORD_GENS)
+        N = [[sum(M[i][k] * F(g[k][j]) for k in range(2)) for j in range(2)] for i in range(2)]
+        if max(abs(x) for r in N for x in r) > bound:
+            break
+        M = N
+    return M
+
+
 def rmat2(rng, field, kind):
     """2x2 exact matrix: 'sl2' (det 1), 'zero' (det 1 with a vanishing entry), 'neg' (det -1), 'gl2' (any invertible)."""
     if kind == "sl2":
         return C.rzsl2(rng, field)
+    if kind == "word":
+        return [[Z(x) for x in r] for r in word_sl2(rng)]
     if kind == "locus":
         M = [[Z(x) for x in r] for r in special_sl2(rng)]
         if field == "QI" and rng.random() < 0.5:        # conjugate-type twist by diag(i, -i): still determinant one
@@ -137,7 +156,7 @@ def gen_irrep(rng, n):
         field = rfield(rng)
         shape = rng.choice(SHAPES)
         cnt = int(np.prod(shape)) if shape else 1
-        mats = [rmat2(rng, field, rng.choice(["sl2", "sl2", "zero", "gl2", "neg", "locus", "locus"])) for _ in range(cnt)]
+        mats = [rmat2(rng, field, rng.choice(["sl2", "sl2", "zero", "gl2", "neg", "locus", "locus", "word"])) for _ in range(cnt)]
         yield {"n": dim, "field": field, "shape": shape, "A": C.enc(mats, field), "via_hom": rng.random() < 0.3}
 
 
@@ -178,7 +197,7 @@ def gen_so21(rng, n):
     for _ in range(n):
         shape = rng.choice(SHAPES)
         cnt = int(np.prod(shape)) if shape else 1
-        kinds = [rng.choice(["sl2", "sl2", "zero", "zero", "neg", "locus", "locus", "locus"]) for _ in range(cnt)]
+        kinds = [rng.choice(["sl2", "sl2", "zero", "zero", "neg", "locus", "locus", "locus", "word", "word"]) for _ in range(cnt)]
         mats = [rmat2(rng, "Q", k) for k in kinds]
         yield {"field": "Q", "shape": shape, "A": C.enc(mats, "Q"), "kinds": kinds}
 
@@ -256,7 +275,7 @@ def judge_so21(inp, obs, lr):
 # ------------------------------------------------------------------------------------------------
 def gen_adj(rng, n):
     for _ in range(n):
-        dim = rng.choice([2, 2, 3, 3, 4, 5, 6])
+        dim = rng.choice([1, 2, 2, 3, 3, 4, 5, 6])
         field = rfield(rng, 0.3)
         A = C.rzinv(rng, field, dim, 2, 2, F(1, 2))
         if rng.random() < 0.5:
@@ -300,6 +319,10 @@ def judge_adj(inp, obs, lr):
             return {"expected": "numeric array", "observed": "object dtype", "tags": dict(tags0, site=k, object_dtype=True),
                     "property_failure": True}
         m = C.dec(r["ok"], fld)
+        if m.size == 0:             # sl(1): 0x0 matrices on both sides
+            if toarr(obs[k]).size != 0:
+                return {"expected": "a 0x0 matrix", "observed": toarr(obs[k]).tolist(), "tags": dict(tags0, site=k)}
+            continue
         if k == "killing":
             # the invariant form is determined up to a non-zero factor (trace form vs. the Killing form proper, 2n·trace)
             got = toarr(obs[k]).astype(complex)
@@ -370,7 +393,7 @@ def judge_blocks(inp, obs, lr):
 
 def gen_so31(rng, n):
     for _ in range(n):
-        kind = rng.choice(["sl2", "sl2", "zero", "gl2", "real", "locus", "locus"])
+        kind = rng.choice(["sl2", "sl2", "zero", "gl2", "real", "locus", "locus", "word"])
         M = rmat2(rng, "Q" if kind == "real" else "QI", "sl2" if kind == "real" else kind)
         yield {"kind": kind, "M": C.enc(M, "QI"), "via_hom": rng.random() < 0.3}
 
@@ -410,6 +433,27 @@ def judge_so31(inp, obs, lr):
 # oracles (float / complex inputs)
 # ------------------------------------------------------------------------------------------------
 def fsl2(rng, cplx, kind="sl2"):
+    if kind == "word":
+        M = np.array([[float(x) for x in r] for r in word_sl2(rng)])
+        return M.astype(complex) if cplx else M
+    if kind == "fword":
+        # a long word in NON-exact generators (boosts, rotations, parabolics): entries up to ~1e5 and determinant 1 only up to
+        # the rounding of the products (|det - 1| ~ 1e-16·|entries|^2) — a perfectly valid element of SL(2,R) for every map
+        target = 10.0 ** rng.uniform(2.5, 5.0)
+        M = np.eye(2)
+        for _ in range(40):
+            t, th = rng.uniform(0.8, 2.2), rng.uniform(0, 2 * math.pi)
+            co, si = math.cos(th), math.sin(th)
+            Rm = np.array([[co, -si], [si, co]])
+            g = rng.choice([Rm @ np.array([[math.cosh(t), math.sinh(t)], [math.sinh(t), math.cosh(t)]]) @ Rm.T,
+                            np.array([[1.0, t], [0.0, 1.0]]), np.array([[1.0, 0.0], [-t, 1.0]]), Rm])
+            N = M @ g
+            if np.max(np.abs(N)) > 1e5:
+                break
+            M = N
+            if np.max(np.abs(M)) > target:
+                break
+        return M.astype(complex) if cplx else M
     if kind in ("locus", "locus_neg"):
         M = np.array([[float(x) for x in r] for r in special_sl2(rng)])
         if kind == "locus_neg":
@@ -489,15 +533,17 @@ def gen_hom(rng, n):
         if base == "irrep":
             param = rng.choice([1, 2, 3, 4, 5, 6])
             k, cplx = 2, rng.random() < 0.4
-            mk = lambda: fsl2(rng, cplx, rng.choice(["sl2", "zero", "locus"]))
+            mk = lambda: fsl2(rng, cplx, rng.choice(["sl2", "zero", "locus", "word", "fword"]))
         elif base == "so21":
             k, cplx = 2, False
-            mk = lambda: fsl2(rng, False, rng.choice(["sl2", "zero", "neg", "locus", "locus_neg"]))
+            mk = lambda: fsl2(rng, False, rng.choice(["sl2", "zero", "neg", "locus", "locus_neg", "word", "fword", "fword"]))
         elif base == "so31":
             k, cplx = 2, True
-            mk = lambda: fsl2(rng, True, rng.choice(["sl2", "zero", "locus"]))
+            mk = lambda: fsl2(rng, True, rng.choice(["sl2", "zero", "locus", "word", "fword"]))
         elif base in ("gln", "sln"):
-            k, cplx = rng.choice([2, 3, 4, 5, 6]), rng.random() < 0.3
+            k, cplx = rng.choice([1, 2, 3, 4, 5, 6]), rng.random() < 0.3
+            if base == "sln" and k == 1 and shape:
+                shape, cnt = [], 1      # sl(1) is 0-dimensional: a stack of 0x0 matrices carries no composite axis to compare
             mk = lambda: fgl(rng, k, cplx)
         elif base == "slr":
             k, cplx = rng.choice([1, 2, 3, 4, 5, 6]), True
@@ -511,6 +557,11 @@ def gen_hom(rng, n):
         yield {"map": name, "param": param, "k": k, "shape": shape, "A": enc_c(A), "B": enc_c(B)}
 
 
+def _amax(x):
+    x = np.asarray(x)
+    return float(np.max(np.abs(x))) if x.size else 0.0
+
+
 def run_hom(inp):
     f = map_fn(inp["map"], inp["param"])
     A, B = toarr(inp["A"]), toarr(inp["B"])
@@ -521,16 +572,16 @@ def run_hom(inp):
     if fa.dtype == object:
         return {"object_dtype": True}
     m = fa.shape[-1]
-    sc = 1 + float(np.max(np.abs(fa))) * float(np.max(np.abs(fb)))
+    sc = 1 + float(_amax(fa)) * float(_amax(fb))
     out = {"shape": list(fa.shape), "m": m,
-           "hom": float(np.max(np.abs(fab - fa @ fb)) / sc),
-           "one": float(np.max(np.abs(fi - np.eye(m)))),
+           "hom": float(_amax(fab - fa @ fb) / sc),
+           "one": float(_amax(fi - np.eye(m))),
            "scale": sc}
     # unit by unit = array call
     if inp["shape"]:
         Af = A.reshape((-1, k, k))
         per = np.array([np.asarray(f(Af[u].copy())) for u in range(Af.shape[0])]).reshape(fa.shape)
-        out["per_unit"] = float(np.max(np.abs(per - fa)) / (1 + np.max(np.abs(fa))))
+        out["per_unit"] = float(_amax(per - fa) / (1 + _amax(fa)))
     return out
 
 
@@ -652,7 +703,7 @@ def judge_struct(inp, obs, lr):
 
 def gen_pgl(rng, n):
     for _ in range(n):
-        kind = rng.choice(["sl2", "sl2", "zero", "zero", "exactzero", "neg", "locus", "locus", "locus", "locus_neg"])
+        kind = rng.choice(["sl2", "sl2", "zero", "zero", "exactzero", "neg", "locus", "locus", "locus", "locus_neg", "word", "fword", "fword"])
         if kind == "exactzero":
             t = math.exp(rng.uniform(-1.5, 1.5)) * rng.choice([-1, 1])
             u = rng.gauss(0, 1)
@@ -662,7 +713,7 @@ def gen_pgl(rng, n):
                 [[t, 0.0], [0.0, 1 / t]], [[0.0, t], [-1 / t, 0.0]]]))
         else:
             A = fsl2(rng, False, kind)
-        B = fsl2(rng, False, rng.choice(["sl2", "zero", "locus"]))
+        B = fsl2(rng, False, rng.choice(["sl2", "zero", "locus", "word", "fword"]))
         yield {"kind": kind, "A": enc_c(A), "B": enc_c(B)}
 
 
@@ -749,7 +800,7 @@ def gen_homhist(rng, n):
         param = rng.choice([2, 3, 4, 5]) if name == "irrep" else None
         if name in ("irrep", "so21", "so21_to_sl2", "so31"):
             k = 2
-            mk = lambda: fsl2(rng, name == "so31", rng.choice(["sl2", "zero", "locus"]))
+            mk = lambda: fsl2(rng, name == "so31", rng.choice(["sl2", "zero", "locus", "word", "fword"]))
         else:
             k = rng.choice([2, 3, 4])
             cplx = name == "slr" or rng.random() < 0.3
@@ -769,7 +820,11 @@ def run_homhist(inp):
     for idx, c in enumerate(inp["calls"]):
         M = toarr(c["M"])
         X = np.asarray(lie.sl2_to_so21(M)) if name == "so21_to_sl2" else M
-        Xi = np.linalg.inv(X)
+        if name == "so21_to_sl2":
+            Jm = np.diag([-1.0, 1.0, 1.0])
+            Xi = Jm @ X.T @ Jm          # the inverse of an element of O(2,1), without inverting an ill-conditioned matrix
+        else:
+            Xi = np.linalg.inv(X)
         if c["inv"] == "keyword":
             out = h(X.copy(), inv=Xi)
         elif c["inv"] == "positional":
@@ -1003,9 +1058,9 @@ def gen_isohist(rng, n):
         steps = []
         for _ in range(rng.randint(2, 6)):
             steps.append({"op": rng.choice(["mul_right", "mul_left", "inv", "set", "setitem", "copy_then_set", "query"]),
-                          "M": enc_c(fsl2(rng, False, rng.choice(["sl2", "zero", "locus"]))),
+                          "M": enc_c(fsl2(rng, False, rng.choice(["sl2", "zero", "locus", "word"]))),
                           "ctor": rng.choice(["sl2_iso", "from_sl2", "list"])})
-        yield {"A": enc_c(fsl2(rng, False, rng.choice(["sl2", "zero", "locus"]))), "ctor": rng.choice(["sl2_iso", "from_sl2", "list"]),
+        yield {"A": enc_c(fsl2(rng, False, rng.choice(["sl2", "zero", "locus", "word"]))), "ctor": rng.choice(["sl2_iso", "from_sl2", "list"]),
                "steps": steps}
 
 
@@ -1221,6 +1276,69 @@ def judge_kw(inp, obs, lr):
     if not obs["err"] <= 1e-8:
         return {"expected": "the value of the independent reference, whatever dtype the optional argument is given in",
                 "observed": obs, "tags": dict(tags0, site="value")}
+    return None
+
+
+# ------------------------------------------------------------------------------------------------
+# G13 / G15 / G16: every entry point of the same map agrees, on single and on stacked input (including stacks whose axes all have
+# the matrix size, and stacks mixing small, large-word and special-locus members); a valid input never raises
+# ------------------------------------------------------------------------------------------------
+def gen_entry(rng, n):
+    for _ in range(n):
+        shape = rng.choice([[], [1], [2], [2, 2], [3], [3, 3], [2, 3]])     # [2], [2,2]: every axis of the 2x2 stack has length 2;
+        cnt = int(np.prod(shape)) if shape else 1                            # [3], [3,3]: every axis of the 3x3 images has length 3
+        kinds = [rng.choice(["sl2", "zero", "locus", "word", "fword", "fword"]) for _ in range(cnt)]
+        if rng.random() < 0.3:
+            kinds = [rng.choice(["locus_neg", "neg", "sl2"]) for _ in range(cnt)]
+        A = np.array([fsl2(rng, False, k) for k in kinds]).reshape(tuple(shape) + (2, 2))
+        yield {"shape": shape, "A": enc_c(A), "pack": rng.choice(["array", "array", "list"])}
+
+
+def run_entry(inp):
+    A = toarr(inp["A"])
+    arg = A.tolist() if inp["pack"] == "list" else A
+    tr = lambda iso: np.swapaxes(np.asarray(iso.proj_data), -1, -2)
+    S = {"lie.sl2_to_so21": np.asarray(lie.sl2_to_so21(A.copy())),
+         "hom.sl2_to_so21": np.asarray(lie.hom.sl2_to_so21()(A.copy())),
+         "sl2_iso": tr(H.sl2_iso(arg)),
+         "Isometry.from_sl2": tr(H.Isometry.from_sl2(arg)),
+         "Isometry(...)": tr(H.Isometry(np.swapaxes(np.asarray(lie.sl2_to_so21(A.copy())), -1, -2)))}
+    ref = np.array([ref_so21(M) for M in A.reshape((-1, 2, 2))]).reshape(A.shape[:-2] + (3, 3))
+    out = {"so21": {k: (float(np.max(np.abs(v - ref) / (1 + np.abs(ref)))) if v.shape == ref.shape else "shape %r" % (v.shape,)) for k, v in S.items()}}
+    Sref = ref
+    iso = H.sl2_iso(arg)
+    back = {"lie.o_to_pgl": np.asarray(lie.o_to_pgl(Sref.copy())), "hom.so21_to_sl2": np.asarray(lie.hom.so21_to_sl2()(Sref.copy())),
+            "sl2_iso.to_sl2": np.asarray(iso.to_sl2()), "from_sl2.to_sl2": np.asarray(H.Isometry.from_sl2(arg).to_sl2())}
+    flat = A.reshape((-1, 2, 2))
+    res = {}
+    for k, v in back.items():
+        if v.shape != A.shape:
+            res[k] = "shape %r" % (v.shape,)
+            continue
+        vf = v.reshape((-1, 2, 2))
+        res[k] = max(pm_err(vf[u], flat[u]) for u in range(len(flat)))
+    out["back"] = res
+    # member u of the stacked answer = the single-object answer for member u
+    single = 0.0
+    for u in range(len(flat)):
+        single = max(single, float(np.max(np.abs(np.asarray(lie.sl2_to_so21(flat[u].copy())) - Sref.reshape((-1, 3, 3))[u]) / (1 + np.abs(Sref.reshape((-1, 3, 3))[u])))))
+    out["member_vs_single"] = single
+    return out
+
+
+def judge_entry(inp, obs, lr):
+    tags0 = {"stack": inp["shape"], "pack": inp["pack"]}
+    if "exc" in obs:
+        return {"expected": "every entry point accepts a valid input (no exception)", "observed": obs, "tags": dict(tags0, exc=obs["exc"])}
+    for k, v in obs["so21"].items():
+        if isinstance(v, str) or not v <= 1e-9:
+            return {"expected": "the SO(2,1) image by the closed formula, for every entry point, unit by unit", "observed": {k: v},
+                    "tags": dict(tags0, site=k)}
+    for k, v in obs["back"].items():
+        if isinstance(v, str) or not v <= 1e-6:
+            return {"expected": "±A unit by unit from every entry point of the inverse", "observed": {k: v}, "tags": dict(tags0, site=k)}
+    if not obs["member_vs_single"] <= 1e-9:
+        return {"expected": "member of the stacked answer = single-object answer", "observed": obs, "tags": dict(tags0, site="member_vs_single")}
     return None
 
 
@@ -1440,6 +1558,12 @@ CLAUSES = [
            budget={"quick": 400, "thorough": 10000},
            what="f(A·B) = f(A)·f(B), f(1) = 1 for every map (irrep n=1..6, so21, gln/sln adjoint n=2..6, slc_to_slr, block_include, "
                 "sl2c_to_so31; direct and via lie.hom), single matrices and arrays of matrices, arrays = unit-by-unit"),
+    Clause("entrypoints_oracle", "oracle", gen_entry, run_entry, judge_entry, site="sl2_to_so21 / sl2_iso / Isometry.from_sl2 / lie.hom.* / to_sl2",
+           budget={"quick": 250, "thorough": 5000},
+           what="all entry points of SL(2)->SO(2,1) (lie.sl2_to_so21, lie.hom.sl2_to_so21(), sl2_iso, Isometry.from_sl2, Isometry(data)) and "
+                "of its inverse (o_to_pgl, lie.hom.so21_to_sl2(), Isometry.to_sl2) agree with the closed formula / recover ±A on single "
+                "matrices and on stacks (shapes with all axes of length 2 resp. 3, size-1 axes), lists and arrays, with members mixing "
+                "small matrices, special loci, determinant -1 and long words with entries up to 1e5; valid input never raises"),
     Clause("isometry_history_oracle", "oracle", gen_isohist, run_isohist, judge_isohist, site="hyperbolic.sl2_iso / Isometry.to_sl2 (histories)",
            budget={"quick": 250, "thorough": 5000},
            what="Isometry objects built by sl2_iso / from_sl2 (arrays, lists) with a history of products on either side, inverses, set(), item "
